@@ -127,13 +127,19 @@ fn main() {
             r.push_str(
                 &ex.oracle_failures
                     .iter()
-                    .map(|(p, n, w, t)| {
+                    .enumerate()
+                    .map(|(i, (p, n, w, t))| {
+                        let replay = match ex.failure_replays.get(&i) {
+                            Some(ls) => format!(",\"replay_lines\":[{}]", ls.iter().map(|l| format!("\"{}\"", json_escape(l))).collect::<Vec<_>>().join(",")),
+                            None => String::new(),
+                        };
                         format!(
-                            "{{\"property\":\"{}\",\"line\":{},\"what\":\"{}\",\"tag\":\"{}\"}}",
+                            "{{\"property\":\"{}\",\"line\":{},\"what\":\"{}\",\"tag\":\"{}\"{}}}",
                             json_escape(p),
                             n,
                             json_escape(w),
-                            json_escape(t)
+                            json_escape(t),
+                            replay
                         )
                     })
                     .collect::<Vec<_>>()
